@@ -29,7 +29,9 @@ class Check(BaseCheck):
             if len(np.unique(t)) != len(v):
                 continue
             cols = int(rng.integers(1, 4))
-            yield dict(v=v, t=t, name=c["name"], vf=rng.normal(size=(len(v), cols)), tf=rng.normal(size=(len(t), cols)),
+            mode = ["unit", "unit", "offset", "tiny"][int(rng.integers(0, 4))]
+            shape = lambda a: {"unit": a, "offset": 1e4 + 1e-2 * a, "tiny": 1e-9 * a}[mode]   # noqa: E731
+            yield dict(v=v, t=t, name=c["name"] + ":" + mode, vf=shape(rng.normal(size=(len(v), cols))), tf=shape(rng.normal(size=(len(t), cols))),
                        weighted=bool(rng.random() < 0.5), n=int(rng.integers(1, 5)), squeeze=bool(cols == 1 and rng.random() < 0.7))
 
     def correspond(self, drv, stats):
@@ -50,7 +52,8 @@ class Check(BaseCheck):
             r3 = core.call(m.smooth_vfunc, vf, c["n"])
             m3 = wire.Reply(drv.ask("smooth %d %s %s %s" % (c["n"], wire.verts(v), wire.elems(t), mat(c["vf"]))))
             for nm, ri, mi, rows in (("map_tfunc_to_vfunc", r1, m1, len(v)), ("map_vfunc_to_tfunc", r2, m2, len(t)), ("smooth_vfunc", r3, m3, len(v))):
-                if ri[0] != "ok" or mi.status != "ok" or core.relerr(np.asarray(ri[1]).reshape(rows, -1), read_mat(mi)) > 1e-9:
+                mm = read_mat(mi) if mi.status == "ok" else None
+                if ri[0] != "ok" or mm is None or np.max(np.abs(np.asarray(ri[1]).reshape(rows, -1) - mm)) > 1e-9 * max(np.abs(mm).max(), 1e-300) * (1e-3 if nm == "smooth_vfunc" and "offset" in c["name"] else 1.0) + 0.0:
                     fails.append(core.Failure("correspondence", nm + " vs model", "%s: impl %s" % (c["name"], str(ri)[:80]), dict(c, fn=nm)))
             if len(fails) > 6:
                 break
@@ -101,7 +104,7 @@ class Check(BaseCheck):
             cc = np.asarray(m.map_vfunc_to_tfunc(np.full(len(v), 1.7)))
         if np.max(np.abs(cc - 1.7)) > tol:
             return core.Violation("v2t-const", "map_vfunc_to_tfunc does not map constants to constants", case)
-        if np.max(np.abs(s - s1)) > tol * max(1, np.abs(vf).max()):
+        if np.max(np.abs(s - s1)) > 1e-7 * max(np.ptp(vf), 1e-300) + 1e-12 * np.abs(vf).max():
             return core.Violation("smooth-iter", "smooth_vfunc(f, n) is not n applications of smooth_vfunc(f, 1)", case)
         if np.max(np.abs(sc - 2.5)) > tol:
             return core.Violation("smooth-const", "smoothing does not fix constants", case)
